@@ -1,6 +1,41 @@
-"""Positive / negative controls (checker sanity).  Filled in per rule."""
+"""Positive / negative controls for the expected-zero rules: tiny packages under
+/verif/controls on which the rule must fire / must stay silent.  Run inside every
+check (checker sanity: a failure is ANALYSIS-ERROR, never a VIOLATION)."""
+from __future__ import annotations
+
+import os
 from typing import List
+
+from . import report as R
+
+CONTROLLED = ("ORD-2", "ORD-4", "STORE-1")
 
 
 def run(rule_ids: List[str]) -> List[str]:
-    return []
+    from .context import Ctx
+    from .rules import RULES
+    from . import cfg as cfgmod
+
+    todo = [r for r in rule_ids if r in CONTROLLED]
+    if not todo:
+        return []
+    failures: List[str] = []
+    for which, want_fire in (("pos", True), ("neg", False)):
+        repo = os.path.join(R.VERIF, "controls", which)
+        try:
+            ctx = Ctx(repo=repo)
+        except Exception as e:  # pragma: no cover
+            failures.append(f"control package {which} unreadable: {e}")
+            continue
+        for rid in todo:
+            try:
+                obs = RULES[rid][0](ctx)
+            except Exception as e:
+                failures.append(f"{rid} crashed on the {which} control: {type(e).__name__}: {e}")
+                continue
+            fired = [o for o in obs if o.state == "violation"]
+            if want_fire and not fired:
+                failures.append(f"{rid} did not fire on the positive control")
+            if not want_fire and fired:
+                failures.append(f"{rid} fired on the negative control: {fired[0].detail[:80]}")
+    return failures
